@@ -100,8 +100,12 @@ def scenario(ctx, rng, j):
     f = rng.choice(sub) if rng.random() < 0.7 else 0
     if sigmsg.message(fields, f) == b'' and rng.random() < 0.8:
         f = 0
-    notsub = [g for g in range(1, 255) if g & ~allowed & 0xff]
-    fbad = rng.choice(notsub) if notsub else None
+    # minimal excess: a permitted flag plus exactly one non-permitted bit
+    # (rotating over the bits), so a mask that is one bit too wide is seen
+    free = [b for b in range(7) if not (allowed >> b) & 1]
+    fbad = (f | (1 << free[j % len(free)])) if free else None
+    if fbad == 0xff:
+        fbad = None
     a_hex, f_hex = f'{allowed:02x}', f'{f:02x}'
     S, vS = committed(rng)
     S2, _ = committed(rng)
